@@ -113,6 +113,41 @@ def exotic_project(rnd, idx):
     return [("lib.rs", "".join(src))]
 
 
+def cyclic_project(rnd, idx):
+    """recursive type graphs of every small shape: self loops, 2- and 3-cycles, cycles whose members have exactly one dependency,
+    cycles with tails and side branches, long acyclic chains (recursion depth), all reachable from a command and an event"""
+    wrap = [lambda t: "Vec<%s>" % t, lambda t: "Option<Box<%s>>" % t, lambda t: "HashMap<String, %s>" % t, lambda t: "Option<%s>" % t,
+            lambda t: "Vec<Option<%s>>" % t, lambda t: "(i32, Vec<%s>)" % t, lambda t: "Box<%s>" % t]
+    shape = idx % 8
+    n = [1, 2, 3, rnd.randint(2, 6), rnd.randint(3, 8), rnd.choice([30, 80, 200]), rnd.randint(2, 5), rnd.randint(4, 9)][shape]
+    names = ["N%d_%d" % (idx, i) for i in range(n)]
+    deps = {i: [] for i in range(n)}
+    if shape <= 3:                      # pure ring: every member has exactly one dependency
+        for i in range(n):
+            deps[i].append((i + 1) % n)
+    elif shape == 4:                    # ring with a tail hanging off and a chord
+        for i in range(n - 1):
+            deps[i].append(i + 1)
+        deps[n - 1].append(rnd.randrange(n - 1))
+        deps[rnd.randrange(n)].append(rnd.randrange(n))
+    elif shape == 5:                    # long acyclic chain
+        for i in range(n - 1):
+            deps[i].append(i + 1)
+    elif shape == 6:                    # complete digraph incl. self loops
+        for i in range(n):
+            deps[i] = list(range(n))
+    else:                               # random digraph
+        for i in range(n):
+            deps[i] = [j for j in range(n) if rnd.random() < 0.3]
+    src = [HDR]
+    for i in range(n):
+        fields = ["    pub id: i32,"] + ["    pub f%d: %s," % (k, rnd.choice(wrap)(names[j])) for k, j in enumerate(deps[i])]
+        src.append("#[derive(Serialize, Deserialize)]\npub struct %s {\n%s\n}\n\n" % (names[i], "\n".join(fields)))
+    src.append("#[tauri::command]\npub fn cyc_%d(root: %s) -> Vec<%s> {\n    todo!()\n}\n\n" % (idx, names[0], names[n - 1]))
+    src.append("pub fn cyc_ev_%d(app: AppHandle, p: %s) {\n    app.emit(\"cyc-%d\", p).unwrap();\n}\n\n" % (idx, names[n // 2], idx))
+    return [("lib.rs", "".join(src))]
+
+
 NON_RUST = ["", "\n\n\n", "{", "}}}}", "fn", "#[tauri::command]", "#[tauri::command]\npub fn", "\"unterminated", "/* never closed", "'", "r#\"raw never closed",
             "<html><body>not rust</body></html>", "{\"json\": true}", "0x", "#!/bin/sh\necho hi\n", "\ufeff// BOM\nfn ok() {}", "fn a() { b( }", "struct S { a: }", "日本語のテキスト",
             "#[derive(Serialize)] struct", "pub fn f() -> { }", "impl", "fn f(a: i32, ) -> ) {}", "\\", "\x00\x01\x02", "fn main() { let s = \"\\u{110000}\"; }", "#[serde(rename = )] struct S;",
@@ -181,7 +216,9 @@ def run_batch(a):
                 json.dump({"project_path": os.path.join(root, "src"), "output_path": os.path.join(root, "out"), "validation_library": mode}, open(os.path.join(root, "cfg.json"), "w"))
                 r = common.run([drv, "gen", os.path.join(root, "cfg.json")], cwd=root, timeout=120)
             else:
-                r = common.cli_generate(cli, project=os.path.join(root, "src"), out=os.path.join(root, "out"), mode=mode, cwd=root, timeout=120)
+                # "cli+viz" / "cli+verbose": the options add code paths of their own (graph rendering, listings of what was found)
+                r = common.cli_generate(cli, project=os.path.join(root, "src"), out=os.path.join(root, "out"), mode=mode, cwd=root, timeout=120,
+                                        viz="viz" in via, verbose="verbose" in via)
             counts["files_reported_unparsable"] += r.err.count("Failed to parse")
             counts["files_given"] += len(files)
             return classify_run(r), r
@@ -301,6 +338,12 @@ def run(tier):
     add("generated", gen_items[: ngen // 2], "none")
     add("generated", gen_items[ngen // 2:], "zod")
     add("generated", gen_items[:: max(1, ngen // 300)], "zod", via="driver")
+    add("generated", gen_items[1:: max(1, ngen // 600)], "none", via="cli+viz")
+    add("generated", gen_items[2:: max(1, ngen // 600)], "zod", via="cli+viz+verbose")
+    ncyc = 240 if tier == "quick" else 8000
+    cyc_items = [("cyclic-%d" % i, cyclic_project(random.Random(common.seed() * 7919 + i), i)) for i in range(ncyc)]
+    for k, (mode, via) in enumerate([("none", "cli"), ("zod", "cli"), ("none", "cli+viz"), ("zod", "cli+viz"), ("zod", "cli+verbose"), ("none", "driver")]):
+        add("recursive-types", cyc_items[k::6] if tier != "quick" else cyc_items, mode, via=via, bsize=1 if "viz" in via else 8)
     nonrust = [("non-rust-%d" % i, [("f.rs", t), ("ok.rs", "#[tauri::command]\npub fn ok_cmd() {}\n")]) for i, t in enumerate(NON_RUST)]
     add("non-rust", nonrust, "none", bsize=4)
     add("non-rust", nonrust, "zod", via="driver", bsize=4)
